@@ -92,3 +92,61 @@ Example ex_c01_lazy_ops :
   length (lazy_run ex_kf true (Some (cons 1%nat nil)) nil ex_ops) = 2%nat /\
   nth 1 (lazy_run ex_kf true (Some (cons 1%nat nil)) nil ex_ops) mzero 0%nat 0%nat = 1%Qc.
 Proof. exact ex_lazy_ops_nonvacuous. Qed.
+
+(* ---- the EXECUTED model is the REAL-NUMBER model (Base/Morph.v, Proofs/C01_morph.v) ----------------
+   The driver compares the implementation with the model run on exact rationals (instance QcF).  Q2R'
+   (the denotation of rational constants) is a field morphism QcF -> RF that commutes with every matrix
+   operation the model is built from.  Whenever run_posterior gets past its certificate check, the
+   inverse it used maps to a two-sided real inverse of the real train covariance, and the rationals it
+   prints, read as reals, are the real-number posterior mean / covariance / marginal of the real-number
+   inputs computed with ANY real inverse AinvR - i.e. (c01_conditional_predictor_unique,
+   c01_conditional_residual_cov at K := RF) the Gaussian conditional over R.  Every n, t. *)
+From GPV Require Import Base.Expr Base.Morph Proofs.C01_morph.
+
+Theorem c01_executed_model_is_real_model :
+  forall n t (KJ muJ S Y Ainv : @M QcF),
+    inv_checked n (mat n n (@train_covar QcF KJ S)) = Some Ainv ->
+    is_inverse n (@train_covar RF (mapR KJ) (mapR S)) (mapR Ainv) /\
+    forall AinvR : @M RF, is_inverse n (@train_covar RF (mapR KJ) (mapR S)) AinvR ->
+      meq t 1 (mapR (@post_mean QcF n KJ muJ Ainv Y)) (@post_mean RF n (mapR KJ) (mapR muJ) AinvR (mapR Y)) /\
+      meq t t (mapR (@post_cov QcF n KJ Ainv)) (@post_cov RF n (mapR KJ) AinvR) /\
+      forall Ss, meq t t (mapR (@marginal_cov QcF n KJ Ainv Ss))
+                         (@marginal_cov RF n (mapR KJ) AinvR (mapR Ss)).
+Proof. exact executed_model_is_real_model. Qed.
+Print Assumptions c01_executed_model_is_real_model.
+
+(* what run_posterior prints is literally those model terms *)
+Theorem c01_run_posterior_prints_model :
+  forall n t kj mu s y,
+    run_posterior (n, t, kj, mu, s, y) =
+    match inv_checked n (mat n n (@train_covar QcF (@of_list QcF kj) (@of_list QcF s))) with
+    | None => cons 0%Z nil
+    | Some Ainv =>
+        cons 1%Z (ser_mat t 1 (@post_mean QcF n (@of_list QcF kj) (@vec_of_list QcF mu) Ainv (@vec_of_list QcF y))
+                  ++ ser_mat t t (@post_cov QcF n (@of_list QcF kj) Ainv))
+    end.
+Proof. exact run_posterior_unfold. Qed.
+Print Assumptions c01_run_posterior_prints_model.
+
+(* the commutation itself, entrywise at EVERY index pair and for ANY field morphism (generic, no axioms) *)
+Theorem c01_model_commutes_with_field_morphisms :
+  forall (K1 K2 : Fld) (phi : @car K1 -> @car K2), FldMorph K1 K2 phi ->
+    forall n (KJ muJ Ainv y Ss : @M K1) i j,
+      phi (@post_mean K1 n KJ muJ Ainv y i j)
+        = @post_mean K2 n (mmap phi KJ) (mmap phi muJ) (mmap phi Ainv) (mmap phi y) i j /\
+      phi (@post_cov K1 n KJ Ainv i j) = @post_cov K2 n (mmap phi KJ) (mmap phi Ainv) i j /\
+      phi (@marginal_cov K1 n KJ Ainv Ss i j)
+        = @marginal_cov K2 n (mmap phi KJ) (mmap phi Ainv) (mmap phi Ss) i j.
+Proof. exact model_commutes_with_field_morphisms. Qed.
+Print Assumptions c01_model_commutes_with_field_morphisms.
+
+(* Q2R' IS such a morphism (so is any composite), it is injective, and it preserves certified inverses *)
+Theorem c01_Q2R_is_field_morphism : FldMorph QcF RF Q2R' /\ (forall x y, Q2R' x = Q2R' y -> x = y).
+Proof. exact Q2R_is_field_morphism. Qed.
+Print Assumptions c01_Q2R_is_field_morphism.
+
+Example ex_c01_executed_model_hypothesis :
+  exists Ainv, inv_checked 1 (mat 1 1 (@train_covar QcF exm_KJ exm_S)) = Some Ainv /\
+    Ainv 0%nat 0%nat = qc 2 5.
+Proof. exact ex_executed_model_hyp. Qed.
+Print Assumptions ex_c01_executed_model_hypothesis.
